@@ -50,6 +50,10 @@ def obligations(tier, seed):
     for j, ea in enumerate([0, ('s', '0', []), ('s', '', [])]):
         obs.append(dict(name='run/OP_DEPTH/empty-arg-%d/out' % j, kind='run', script='OP_DEPTH', args=[ea, 1], mode='out', opts=[]))
         obs.append(dict(name='run/OP_SIZE/empty-arg-%d/in' % j, kind='run', script='OP_SIZE', args=[1, ea], mode='in', opts=[]))
+    # -z: the re-enabled opcodes; operands that are too long / not minimal make CScriptNum throw inside StepExtended - still a script error, exit 1 (seed C08-7: noexcept there = abort)
+    for sc, args in (('OP_2MUL', [5]), ('OP_3 OP_MUL', [5]), ('OP_1 OP_LSHIFT', [5]), ('OP_1 OP_SUBSTR', [1, 3]), ('OP_2 OP_DIV', [5]), ('OP_CAT', [1, 1]), ('OP_0 OP_IF OP_CAT OP_ENDIF', [1])):
+        obs.append(dict(name='run/%s/args%s/-z' % (sc, '.'.join(map(str, args))), kind='run', script=sc, args=args, mode='out', opts=['-z']))
+    obs.append(dict(name='run/OP_CAT/args1.1/no-z', kind='run', script='OP_CAT', args=[1, 1], mode='in', opts=[]))
     obs.append(dict(name='verbose-refused', kind='verbose', script='OP_1', args=[], mode='out', opts=['-v']))
     return obs
 
@@ -114,6 +118,7 @@ def reference(ctx, ob, toks, sc_syms, arg_syms):
             stack.append(R.num_encode(ctx, z3.simplify(v)))
     import C09
     S = R.RS(stack=stack, alt=[], vf_size=0, vf_ff=None, nop=z3.BitVecVal(0, 32), flags=z3.BitVecVal(C09.STANDARD, 32), sigversion=R.BASE, script=script, pc=0)
+    S.allow_disabled = '-z' in ob.get('opts', [])
     # the minimal-push form of symbolic pushes has a value-dependent length: ref decode works on the concrete structure chosen above
     while S.pc < len(S.script):
         r = R.ref_step(ctx, S)
@@ -138,7 +143,7 @@ def run(E, ob):
     def key(a, b):
         if isinstance(a, (list, tuple)): return 'C08:' + str(a[1])
         return 'C08:%s:%s' % (ob['script'], 'code' if a.get('code') != b.get('code') else 'stdout')
-    return sesslib.diff_paths(E, ob['name'], fin, io, ref, assume, inputs, key)
+    return sesslib.diff_paths(E, ob['name'], fin, io, ref, assume, inputs, key, crash_everywhere=True)          # abnormal termination is a violation also where the result is not compared
 
 def concrete_argv(ob, cex):
     V = {}
@@ -160,6 +165,9 @@ def replay(lib, ob, cex):
     rc, out, err = runtool.run(cmd, stdin_tty=bool(tty[0]), stdout_tty=bool(tty[1]), stdin_data=bytes(stdin) if stdin else None)
     cases, _ = refexec.explore(lambda ctx: reference(ctx, ob, toks, sc_syms, arg_syms) if ob['kind'] != 'verbose' else dict(code=1, stdout='*'))
     s = z3.Solver(); s.check(); ro = sesslib.concretize(s.model(), cases[0][1])
+    if isinstance(ro, (tuple, list)) and ro and ro[0] == 'ref_abort':
+        # no result prescribed for this input: only abnormal termination counts
+        return (rc is None or rc < 0 or rc > 1), 'real binary: %s -> exit %s, stderr %r ; a normal exit (0 or 1) is required' % (' '.join(cmd[1:]), rc, err[:160])
     want_out = bytes(ro['stdout']) if ro['stdout'] != '*' else None
     out_n = out.replace(b'\r\n', b'\n')
     bad = (rc is None) or rc < 0 or rc != ro['code'] or (want_out is not None and out_n != want_out)
